@@ -37,6 +37,8 @@ const HOST_CHARS: &[u8] = b"abcdefghijklmnopqrstuvwxyzABCXYZ0123456789-.";
 
 fn gen_segment(t: &mut Tape, max: usize) -> String {
     loop {
+        // now and then a very long segment (URIs of several kilobytes)
+        let max = if t.chance(1, 200) { 3000 } else { max };
         let n = 1 + t.choose(max as u64) as usize;
         let s: String = (0..n).map(|_| *t.pick(URI_CHARS) as char).collect();
         if s != "." && s != ".." {
